@@ -4,6 +4,7 @@ package main
 
 import (
 	"bytes"
+	"encoding/json"
 	"errors"
 	"regexp"
 	"strconv"
@@ -218,6 +219,23 @@ func cidTable(strs ...string) string {
 	return hl(out)
 }
 
+// what go-multibase returns for the whole string when its prefix is not one the Lean model covers
+// (base36 k/K, base58btc z, raw base58 Qm…/1…); "none" when the model needs no help
+func extraObs(t string) string {
+	if t == "" || strings.HasPrefix(t, "Qm") || strings.HasPrefix(t, "1") || len(t) < 2 {
+		return "none"
+	}
+	switch t[0] {
+	case 'k', 'K', 'z':
+		return "none"
+	}
+	_, data, err := mb.Decode(t)
+	if err != nil {
+		return "err"
+	}
+	return h(string(data))
+}
+
 func nameOp(s string) string {
 	t := strings.TrimPrefix(s, "/ipns/")
 	pid, err := peer.Decode(t)
@@ -273,7 +291,14 @@ func gen(r *vh.Rand, tier string, n int, emit func(vh.Case)) {
 				case 3:
 					s = "/ipns//ipns/" + s
 				}
-				c.Ops = append(c.Ops, nameOp(s))
+				c.Ops = append(c.Ops, nameOp(s), "cname "+h(s)+" "+extraObs(strings.TrimPrefix(s, "/ipns/")))
+				if r.Bool() {
+					t := strings.TrimPrefix(s, "/ipns/")
+					if r.Chance(1, 4) {
+						t = mutate(r, t)
+					}
+					c.Ops = append(c.Ops, "pdec "+h(t)+" "+extraObs(t))
+				}
 			case 10:
 				id := peerID(r)
 				d := "/ipns/" + string(id)
@@ -291,7 +316,10 @@ func gen(r *vh.Rand, tier string, n int, emit func(vh.Case)) {
 				if _, err := mh.Cast([]byte(strings.TrimPrefix(d, "/ipns/"))); err == nil {
 					v = "1"
 				}
-				c.Ops = append(c.Ops, "rkey "+h(d)+" "+v)
+				c.Ops = append(c.Ops, "rkey "+h(d)+" "+v, "rkeyc "+h(d))
+				if r.Bool() {
+					c.Ops = append(c.Ops, "b36 "+h(string(id)))
+				}
 			default:
 				s := "/" + vh.Pick(r, []string{"ipfs", "ipld", "ipns"}) + "/" + vh.Pick(r, cidStrings(r)) + sep(r) + vh.Pick(r, restFrags)
 				c.Ops = append(c.Ops, "path "+h(s)+" "+cidTable(s))
@@ -363,6 +391,18 @@ func monitorPath(o *vh.Out, what string, p path.Path) {
 	for _, s := range strings.Split(p.String(), "/") {
 		if s == "." || s == ".." {
 			o.Fail("dot-segment", "%s: printed form %q has a dot segment", what, p.String())
+		}
+	}
+	// NewImmutablePath / FromCid: the immutable view of an accepted path agrees with the parse
+	if ip, err := path.NewImmutablePath(p); p.Mutable() == (err == nil) {
+		o.Fail("immutable-view", "%s: %q mutable=%v NewImmutablePath err=%v", what, p.String(), p.Mutable(), err)
+	} else if err == nil {
+		if orig, ok := p.(path.ImmutablePath); !ok || !orig.RootCid().Equals(ip.RootCid()) || ip.String() != p.String() {
+			o.Fail("immutable-view", "%s: %q", what, p.String())
+		}
+		fc := path.FromCid(ip.RootCid())
+		if q, err := path.NewPath(fc.String()); err != nil || !samePath(fc, q) || fc.Namespace() != "ipfs" || !fc.RootCid().Equals(ip.RootCid()) {
+			o.Fail("fromcid", "%s: FromCid(%s) = %q does not re-parse to itself", what, ip.RootCid(), fc.String())
 		}
 	}
 	segs := p.Segments()
@@ -454,7 +494,24 @@ func exec(c vh.Case, o *vh.Out) {
 				o.Kind("join-err")
 			}
 			o.Emit("%s", showPath(q, err))
-		case f[0] == "name" && len(f) == 4:
+		case f[0] == "pdec" && len(f) == 3:
+			pid, err := peer.Decode(string(vh.UnHex(f[1])))
+			if err != nil {
+				o.Kind("pdec-err")
+				o.Emit("err")
+			} else {
+				o.Kind("pdec-ok")
+				o.Emit("%s", h(string(pid)))
+			}
+		case f[0] == "b36" && len(f) == 2:
+			s, err := peer.ToCid(peer.ID(vh.UnHex(f[1]))).StringOfBase(mb.Base36)
+			if err != nil {
+				o.Emit("err")
+			} else {
+				o.Kind("b36")
+				o.Emit("%s", h(s))
+			}
+		case (f[0] == "name" && len(f) == 4) || (f[0] == "cname" && len(f) == 3):
 			s := string(vh.UnHex(f[1]))
 			n, err := ipns.NameFromString(s)
 			if err != nil {
@@ -494,13 +551,22 @@ func exec(c vh.Case, o *vh.Out) {
 			if !bytes.Equal(rk, append([]byte("/ipns/"), []byte(n.Peer())...)) {
 				o.Fail("routing-key-shape", "%x", rk)
 			}
+			// JSON form = the string form
+			if js, err := json.Marshal(n); err != nil || string(js) != strconv.Quote(str) {
+				o.Fail("name-roundtrip-json", "Marshal %q: %s %v", str, js, err)
+			} else {
+				var n6 ipns.Name
+				if err := json.Unmarshal(js, &n6); err != nil || !n6.Equal(n) {
+					o.Fail("name-roundtrip-json", "Unmarshal %s: %v", js, err)
+				}
+			}
 			// AsPath: the name as a content path
 			if ap := n.AsPath(); ap.String() != "/ipns/"+str {
 				o.Fail("aspath", "%q", ap.String())
 			}
 			o.Nontrivial()
 			o.Emit("ok %s %s %s rt=%s", h(string(n.Peer())), h(str), h(string(rk)), bs)
-		case f[0] == "rkey" && len(f) == 3:
+		case (f[0] == "rkey" && len(f) == 3) || (f[0] == "rkeyc" && len(f) == 2):
 			d := vh.UnHex(f[1])
 			n, err := ipns.NameFromRoutingKey(d)
 			if err != nil {
